@@ -44,6 +44,10 @@ type c17Case struct {
 	Corpus  kit.Corpus
 	Queries []kit.QSpec
 	Ops     []c17Op
+	// PreMeta: before the history starts the shard already has a sidecar
+	// carrying a metadata-only update (RawConfig / Metadata of repository
+	// number PreMeta-1), as the indexserver writes them. 0 = no sidecar.
+	PreMeta int `json:",omitempty"`
 }
 
 func c17Gen(rt *rapid.T) c17Case {
@@ -64,8 +68,20 @@ func c17Gen(rt *rapid.T) c17Case {
 			c.Ops = append(c.Ops, c17Op{Kind: "set", ID: c.Corpus.Repos[i].ID})
 		}
 	}
+	if g.Bool(35, "premeta") {
+		c.PreMeta = 1 + g.U(len(c.Corpus.Repos), "premetarepo")
+	}
 	nq := g.Int(3, 5, "nq")
 	for i := 0; i < nq; i++ {
+		if c.PreMeta > 0 && g.Bool(40, "premetaq") {
+			// a query that depends on what only the sidecar says
+			if g.Bool(50, "premetakind") {
+				c.Queries = append(c.Queries, kit.QSpec{Op: "rawconfig", Num: float64(16)}) // archived
+			} else {
+				c.Queries = append(c.Queries, kit.QSpec{Op: "meta", Field: "team", Pat: "^sidecar$"})
+			}
+			continue
+		}
 		q, _ := kit.GenQuery(g, &c.Corpus, kit.DefaultQuery, 1)
 		c.Queries = append(c.Queries, q)
 	}
@@ -363,6 +379,33 @@ func runC17(rec *kit.Recorder, active map[string]bool, c c17Case) error {
 		return kit.Fail("build", "expected one compound shard, got %v", built.Paths)
 	}
 	shard := built.Paths[0]
+	if c.PreMeta > 0 && c.PreMeta <= len(c.Corpus.Repos) {
+		repos, _, err := index.ReadMetadataPath(shard)
+		if err != nil {
+			return kit.Fail("build", "reading the shard's metadata: %v", err)
+		}
+		want := c.Corpus.Repos[c.PreMeta-1].ID
+		for _, r := range repos {
+			if r.ID != want {
+				continue
+			}
+			if r.RawConfig == nil {
+				r.RawConfig = map[string]string{}
+			}
+			r.RawConfig["archived"] = "1"
+			if r.Metadata == nil {
+				r.Metadata = map[string]string{}
+			}
+			r.Metadata["team"] = "sidecar"
+		}
+		tmp, final, err := index.JsonMarshalRepoMetaTemp(shard, repos)
+		if err != nil {
+			return kit.Fail("build", "writing the sidecar: %v", err)
+		}
+		if err := os.Rename(tmp, final); err != nil {
+			return kit.Fail("build", "installing the sidecar: %v", err)
+		}
+	}
 
 	member := map[uint32]*kit.Repo{}
 	for i := range c.Corpus.Repos {
